@@ -149,6 +149,8 @@ def discharge(F, fn, s, dbname, table_field_names):
             return "induction variable of 0..len"
         if _len_guard_assert(fn, s["bb"], t):
             return "dominated by length comparison"
+        if _countdown_index(fn, s["bb"], t):
+            return "count-down index: starts at len, decremented only under `> 0`, used only after a decrement"
         return None
     if k in ("DivisionByZero", "RemainderByZero"):
         c = origin(fn, t["cond"])
@@ -316,6 +318,85 @@ def _min_len_guard(fn, bb, need):
 
 def _len_guard_assert(fn, bb, t):
     return _len_guard(fn, bb, t["index"], None)
+
+
+def _copy_root(fn, op, bb=None):
+    """follow plain copies (`_a = copy _b`) of a single-definition temporary back to the local it copies"""
+    seen = set()
+    while isinstance(op, dict) and "l" in op and not op.get("p") and op["l"] not in seen:
+        seen.add(op["l"])
+        ds = [d for d in fn.defs().get(op["l"], []) if not fn.is_cleanup(d[0])]
+        if len(ds) != 1 or ds[0][2] != "assign":
+            break
+        rv = ds[0][3]["rv"]
+        if rv["k"] == "use" and "l" in rv["ops"][0] and not rv["ops"][0].get("p"):
+            op = rv["ops"][0]
+            continue
+        break
+    return op
+
+
+def _countdown_index(fn, bb, t):
+    """`let mut i = N; while i > 0 { i -= 1; a[i] }` with `a` of length N: the counter starts at the length, its only other
+    definitions subtract one and run only under a dominating `i > 0` (or `i != 0`) edge, and the index is read after a decrement"""
+    from terms import edge_dominates
+    idx = _copy_root(fn, t["index"])
+    if "l" not in idx or idx.get("p"):
+        return False
+    L = idx["l"]
+    ln = origin(fn, t["len"])
+    if ln[0] != "const" or (ln[1] is None and not (len(ln) > 2 and ln[2])):
+        return False
+    inits, decs = [], []
+    for (b, i, kind, st) in fn.defs().get(L, []):
+        if fn.is_cleanup(b):
+            continue
+        if kind != "assign":
+            return False
+        rv = st["rv"]
+        if rv["k"] == "use" and rv["ops"][0].get("k") == "const":
+            inits.append((b, origin(fn, rv["ops"][0])))
+            continue
+        src = None
+        if rv["k"] == "use" and "l" in rv["ops"][0] and rv["ops"][0].get("p") == [".0"]:
+            ds = [d for d in fn.defs().get(rv["ops"][0]["l"], []) if not fn.is_cleanup(d[0])]
+            if len(ds) == 1 and ds[0][2] == "assign":
+                src = (ds[0][0], ds[0][3]["rv"])
+        elif rv["k"] == "bin":
+            src = (b, rv)
+        if not src or src[1]["k"] != "bin" or src[1].get("op") not in ("SubWithOverflow", "Sub", "SubUnchecked"):
+            return False
+        a, c = src[1]["ops"]
+        if _copy_root(fn, a).get("l") != L or c.get("k") != "const" or c.get("v") != 1:
+            return False
+        decs.append(src[0])
+    if len(inits) != 1 or inits[0][1] != ln or not decs:
+        return False
+    # every decrement runs only under `L > 0` / `L != 0`
+    guards = []
+    for a in range(len(fn.blocks)):
+        tm = fn.term(a)
+        if tm["k"] != "switch" or fn.is_cleanup(a) or "l" not in tm["discr"]:
+            continue
+        ds = [d for d in fn.defs().get(tm["discr"]["l"], []) if d[0] == a and d[2] == "assign"]
+        if not ds or ds[-1][3]["rv"]["k"] != "bin":
+            continue
+        rv = ds[-1][3]["rv"]
+        x, y = rv["ops"]
+        if _copy_root(fn, x).get("l") == L and y.get("k") == "const" and y.get("v") == 0 and rv.get("op") in ("Gt", "Ne"):
+            false_t = [tt for (v, tt) in tm.get("targets", []) if v == 0]
+            for sx in fn.succ(a):
+                if sx not in false_t:
+                    guards.append((a, sx))
+    if not all(any(edge_dominates(fn, e, d) for e in guards) for d in decs):
+        return False
+    # ... once per guard evaluation: every cycle through a decrement passes one of its guard blocks again
+    for d in decs:
+        gb = tuple(e[0] for e in guards if edge_dominates(fn, e, d))
+        if any(d in fn.reachable(x, avoid=gb) for x in fn.succ(d) if x not in gb):
+            return False
+    # the index is read after at least one decrement
+    return any(fn.dominates(d, bb) for d in decs)
 
 
 def _guarded_by_presence(fn, bb, op):
